@@ -9,7 +9,15 @@ latency / k; with n instances the optimum (E, L) resp. every (energy, latency) v
 ENERGY|LATENCY front x n and the same number of returned rows.  Differential between two runs of
 the real mapper (base run vs scaled run).
 
-Mutation self-test: see the end of this docstring.
+Mutation self-test (scratch copies /tmp/af-mut-*):
+  1. run_model.py `df["Total<SEP>latency"] = overall_latency * n_instances` -> without n_instances:
+     CAUGHT by the whole quick tier (18 violations, wl-n_instances-scaling/front-not-scaled and
+     einsum-n_instances-scaling/front-not-scaled).
+  2. pareto.py makepareto rounds objective columns to 2 decimals (absolute, scale-dependent
+     threshold): CAUGHT at energy k=1e-6 (MM1-422/tight) and throughput k=1e6 (MM1-422/tight-thr),
+     correctly silent at k=2 (replays).
+  3. fast_pareto.py treats a column as constant when max-min < 1e-2: MISSED - it only disables
+     pruning (more rows survive), the optimum is unchanged.
 """
 
 from __future__ import annotations
